@@ -49,7 +49,9 @@ func (f *Let) Call(s *slip.Scope, args slip.List, depth int) (result slip.Object
 	slip.CheckArgCount(s, depth, f, args, 1, -1)
 	ns := s.NewScope()
 	d2 := depth + 1
-	processBinding(s, ns, args[0], d2)
+	if result = processBinding(s, ns, args[0], d2); result != nil {
+		return
+	}
 	for i := 1; i < len(args); i++ {
 		result = slip.EvalArg(ns, args, i, d2)
 		switch result.(type) {
